@@ -371,10 +371,22 @@ impl Engine for WatchEngine {
                 l.push(format!("ev modother {}", gp_b(b"elsewhere/f.txt")));
                 l.push(format!("ev modother {}", gp_b(b"r0/a")));
             }
+            _ if idx % 40 == 9 => {
+                // both tiers: a short real history under a root that the source hands to `FsWatcherBuilder::watch` through an
+                // alias (symbolic link / `x/..` detour): the events come back spelled like the watch, not like the canonical path
+                let alias = *rng.pick(&["link", "dotdot"]);
+                l.push(format!("real-roots 1 {alias}"));
+                l.push("real-start".into());
+                l.push(format!("real create f 0 {} {}", hexs("a"), hexs("txt")));
+                l.push(format!("real modify f 0 {} {}", hexs("a"), hexs("txt")));
+                l.push(format!("real create d 0 {} {}", hexs("d"), hexs("")));
+                l.push(format!("real create f 0 {} {}", hexs("d.b"), hexs("x")));
+                l.push(format!("real delete f 0 {} {}", hexs("a"), hexs("txt")));
+            }
             _ if tier == Tier::Thorough && idx % 8 == 2 => {
                 // real watcher history
                 let nroots = rng.range(1, 2);
-                l.push(format!("real-roots {nroots}"));
+                l.push(format!("real-roots {nroots} {}", rng.pick(&["plain", "plain", "link", "dotdot"])));
                 let mut live: Vec<(usize, bool, String, String)> = vec![];
                 let pre = rng.range(0, 3);
                 let total = pre + rng.range(4, 10);
@@ -685,6 +697,8 @@ fn ensure_dirs(root: &Path, dir: &Path) {
 #[derive(Default)]
 struct RealRun {
     roots: Vec<PathBuf>,
+    /// how each root is spelled when it is handed to `FsWatcherBuilder::watch`
+    watch_paths: Vec<PathBuf>,
     rx: Option<VerifEvents>,
     n_sentinel: usize,
 }
@@ -722,13 +736,20 @@ impl RealRun {
                 let n: usize = w[1].parse().expect("n");
                 self.roots = (0..n).map(|k| base.join(format!("real{k}"))).collect();
                 for r in &self.roots { mk(r, true); }
+                let alias = w.get(2).copied().unwrap_or("plain");
+                self.watch_paths = self.roots.iter().enumerate().map(|(k, r)| match alias {
+                    "link" => { let l = base.join(format!("alias{k}")); let _ = std::fs::remove_file(&l); std::os::unix::fs::symlink(r, &l).expect("symlink"); l }
+                    "dotdot" => { mk(&base.join("detour"), true); base.join("detour").join("..").join(format!("real{k}")) }
+                    _ => r.clone(),
+                }).collect();
+                rec.stat(format!("real/root-spelling={alias}"));
                 mk(&self.roots[0].join("zsnt"), true);
             }
             "real-start" => {
                 if self.roots.is_empty() { return; }
                 let (tx, rx) = EventSender::verif_channel();
                 let mut b = match FsWatcherBuilder::new() { Ok(b) => b, Err(e) => { rec.stat("real/unavailable"); eprintln!("watch engine: no real watcher: {e}"); return } };
-                for r in &self.roots { if let Err(e) = b.watch(r.clone()) { eprintln!("watch engine: cannot watch: {e}"); rec.stat("real/unavailable"); return; } }
+                for r in &self.watch_paths { if let Err(e) = b.watch(r.clone()) { eprintln!("watch engine: cannot watch: {e}"); rec.stat("real/unavailable"); return; } }
                 b.build(tx);
                 self.rx = Some(rx);
                 // the handler is handed over on the first event: make sure it is in place
